@@ -26,7 +26,9 @@ using namespace QXmpp::Private;
 #endif
 #define NEWID 7u
 #define SEQ_BOUND 0x7fffffffu
-#define VP_SENT_CAP 8   // capacity of the socket log (models.c)
+#ifndef VP_SENT_CAP
+#define VP_SENT_CAP 8   // capacity of the socket log (models.c: SENT_CAP)
+#endif
 enum { K_PACKET = 1, K_ACK = 2, K_REQ = 3, K_OTHER = 4, K_RESUME = 5, K_ENABLE = 6 };
 
 extern "C" {
@@ -44,6 +46,7 @@ void vp_c09_map_set(void *map, unsigned i, unsigned key, const QXmppPacket *pkt)
 void vp_c09_map_setn(void *map, unsigned n);
 bool vp_c09_false();
 unsigned vp_c09_nfix();
+unsigned vp_c09_sendfix();
 }
 #ifdef VP_C09_HOOKS
 extern "C" {
